@@ -151,6 +151,25 @@ def fam_predicate(res, s, v, spec, what, n=None, expand=False):
         return
     t = all_conv(expand_eq(t))
     g = spec
+    # a sibling predicate used by name stands for its own (separately decided) meaning
+    dis = lambda A, B: ('b', '||', L(M(A, HI), M(B, LO)), L(M(B, HI), M(A, LO)))
+
+    def delegates_back(name):
+        for g in v.tu.functions.values():
+            if g['dep'] and not g.get('rec') and v.tu.fn_file(g) == BOX_H and (v.tu.node(g['id']) or {}).get('name') == name:
+                if s.name in calls_in(tuple(FnView(v.tu, g).body())):
+                    return True
+        return False
+
+    def sibling(x):
+        if x[0] == 'call' and len(x[2]) == 2 and x[1] != s.name and x[1] in ('disjoint', 'touchingOrOverlapping') \
+                and not delegates_back(x[1]):
+            if x[1] == 'disjoint':
+                return dis(x[2][0], x[2][1])
+            if x[1] == 'touchingOrOverlapping':
+                return ('u', '!', dis(x[2][0], x[2][1]))
+        return x
+    t = map_terms(t, sibling)
     rect = v.f.get('rect')
     if rect and not v.f['dep'] and rangearg(rect) is not None and vecshape(rangearg(rect)) is None:
         # typed instantiation on a scalar bound: anyLessThan(a, b) is the scalar a < b (range.h, decided as `scalar anyLessThan`)
